@@ -13,17 +13,15 @@
          collection (vector length, types, point size) / exceeds a plan limit was answered 2xx                            103 digest changed although 4xx
      104 a request that passes validation (finite numbers) was answered 4xx
      106 a read request changed the digest
-   sub-codes of 101 / 105 / 102 for the confirmed defects of the pinned tree (known findings):
-     111 v1 handler on a collection without a vamana index named "vector" (nil dereference)
-     112 search on a collection whose product quantizer cannot be built (numSubVectors does
-         not divide the vector size, or haversine) -> 5xx
-     113 select path that runs into a scalar / non-numeric segment on an array -> 5xx
-     114 offset + limit overflows int: slice bounds panic in a shard goroutine, process dies
-     115 GET collection whose stored alpha is NaN -> 5xx      116 response carries a stored
-         non-finite float -> 5xx                              117 MessagePack nesting ~1e6: stack
-         overflow, process dies
-     121 alpha outside the documented interval accepted (NaN)  122 binary quantizer
-         triggerThreshold outside the documented range accepted  123 missing indexSchema accepted
+   sub-codes of 101 / 105 / 102 for the defects confirmed on the pinned tree.  Still open (known
+   findings): 113 select path that runs into a scalar / non-numeric segment on an array -> 5xx;
+     116 response carries a stored non-finite float -> 5xx; 117 MessagePack nesting ~1e6: stack
+     overflow, process dies; 123 missing indexSchema accepted.
+   Repaired in /repo (a recurrence is a violation): 111 v1 handler on a collection without a vamana
+     index named "vector" (nil dereference); 112 search on a collection whose product quantizer
+     cannot be built -> 5xx; 114 offset + limit overflows int, process dies; 115 GET collection whose
+     stored alpha is NaN -> 5xx; 121 alpha = NaN accepted; 122 binary quantizer triggerThreshold
+     outside the documented range accepted.
    MISMATCH (the implementation differs from the model):
      201 model rejects, answer 2xx (within documented limits)  202 model predicts a panic, none seen
      203 status class is none of 2xx / 4xx / 5xx               299 inconsistent case (harness) *)
